@@ -60,7 +60,47 @@ TEXTS += [
     's = "a\x0bb"\nprint(s)\n',
     "t = 'x\x0cy\u2028z'\nu = 'k\x1cl\x85m'\nprint(t, u)\n",
 ]
+# process-global-state probes: a valid program whose flattening fails half-way (RecursionError on a left-deep
+# expression of 1500 operands), huge literals in another base, and a decimal literal beyond the 4300-digit limit
+# (SyntaxError from the parser — unless something lifted sys.set_int_max_str_digits earlier in the process)
+P_DEEP, P_DEC, P_HEX, P_BIN = len(TEXTS), len(TEXTS) + 1, len(TEXTS) + 2, len(TEXTS) + 3
+TEXTS += [
+    "x = " + " + ".join(["1"] * 1500) + "\n",
+    "z = " + "7" * 5000 + "\nprint(z)\n",
+    "h = 0x" + "f" * 6000 + "\n",
+    "b = 0b" + "1" * 20000 + "\n",
+]
 BASE_OF_HINTED = {20: 18, 21: 0, 22: 1}  # index of a hinted text -> index of the hint-free text with the same code
+
+
+def snapshot_globals():
+    """A small set of interpreter-global observables no tagging may change."""
+    import locale
+    import warnings
+    return {"int_max_str_digits": sys.get_int_max_str_digits() if hasattr(sys, "get_int_max_str_digits") else None,
+            "recursionlimit": sys.getrecursionlimit(), "locale": locale.setlocale(locale.LC_ALL),
+            "warnings_filters": len(warnings.filters), "cwd": os.getcwd(), "sys_path_len": len(sys.path)}
+
+
+def restore_globals(snap):
+    if snap["int_max_str_digits"] is not None:
+        sys.set_int_max_str_digits(snap["int_max_str_digits"])
+    sys.setrecursionlimit(snap["recursionlimit"])
+    os.chdir(snap["cwd"])
+
+
+def leaked_globals(ctx, snap, where, detail):
+    """Compare with the snapshot; a difference is recorded (a violation CANDIDATE: it becomes a violation when a later
+    program's record differs from its record alone — the probe sequences are there for that), then undone."""
+    now = snapshot_globals()
+    diff = {k: [snap[k], now[k]] for k in snap if snap[k] != now[k] and k != "warnings_filters"}
+    if diff:
+        ctx.dist(f"globals.leak.{where}")
+        leaks = ctx.cov.setdefault("interpreter_globals_leaked", [])
+        if len(leaks) < 6:
+            leaks.append({"where": where, "changed": diff, "after": detail})
+        restore_globals(snap)
+    return diff
 
 
 class Proc:
@@ -161,6 +201,11 @@ def reference(text, query_ids):
     fa.pseudo_hash.reset()
     _, out = proc.tag(text)
     rec["fresh"] = out
+    labs = out.get("labels", [])
+    if rec["parsed"] == "tree" and len(labs) == 1 and labs[0][0].startswith("ast_construction:") and proc.create_args is None:
+        # a valid program whose FLATTENING failed (fix d1e6a10): reported like an invalid one; the hash counter was
+        # reset and partly filled, which the model's `invalid` kind does not track
+        rec["parsed"], rec["err"], rec["flatten_failed"] = "invalid", labs[0][0].split(":", 1)[1], True
     rec["reprs"] = list(fa.pseudo_hash.args) if rec["parsed"] == "tree" else []
     rec["hash_i"] = fa.pseudo_hash.i
     if "exc" in out and proc.create_args is None and rec["parsed"] == "tree":
@@ -262,7 +307,11 @@ def stream_sequences(ctx, drv, n_seq):
                 ctx.dist("seq.text.layout_twins", len(idx))
     except Exception as e:  # noqa
         ctx.notes.append(f"c02.gen_twins not usable for the C03 sequences: {type(e).__name__}: {e}")
-    recs = [reference(t, query_ids) for t in texts]
+    snap0 = snapshot_globals()
+    recs = []
+    for t in texts:
+        recs.append(reference(t, query_ids))
+        leaked_globals(ctx, snap0, "reference", t[:60])  # keeps every reference a "tagged alone" one
     from paroxython.list_programs import get_program
     for h, b in BASE_OF_HINTED.items():
         if str(get_program(texts[h], Path("p.py")).source) != str(get_program(texts[b], Path("p.py")).source):
@@ -288,6 +337,12 @@ def stream_sequences(ctx, drv, n_seq):
         elif 3 <= si < 3 + len(twin_groups):
             g = list(twin_groups[si - 3])  # layout twins (same tree, different lines), one after the other, both orders
             seq = g + g[::-1] + [ctx.rng.randrange(len(TEXTS))] + g[:1]
+        elif si == 3 + len(twin_groups):
+            seq = [P_DEEP, P_DEC]  # flattening fails half-way, then a literal only the untouched interpreter rejects
+        elif si == 4 + len(twin_groups):
+            seq = [P_DEC, P_HEX, P_DEC, P_BIN, P_DEEP, P_DEC, 0, P_DEC]
+        elif ctx.rng.random() < 0.15:
+            seq = seq + [ctx.rng.choice([P_DEEP, P_HEX, P_BIN]), P_DEC]
         elif ctx.rng.random() < 0.4:
             h = ctx.rng.choice(list(BASE_OF_HINTED))
             pair = [BASE_OF_HINTED[h], h]
@@ -304,9 +359,14 @@ def stream_sequences(ctx, drv, n_seq):
                      compiled=compiled, programs=[progs_req[g] for g in used], sequence=[remap[g] for g in seq],
                      trace=True)["steps"]
         memo_base = memo_size(proc)
+        hash_unknown = False
         for pos, idx in enumerate(seq):
             text, ref, ms = texts[idx], recs[idx], m[pos]
             _, out = proc.tag(text)
+            if ref.get("flatten_failed"):
+                hash_unknown = True
+            elif ref["parsed"] == "tree":
+                hash_unknown = False
             key = (tuple(seq[:pos + 1]),)
             ctx.count("sequences", key, nontrivial=pos > 0)
             ctx.dist(f"seq.kind.{ref['parsed']}")
@@ -330,6 +390,8 @@ def stream_sequences(ctx, drv, n_seq):
             mod_obs = {"hash_i": ms["hash_i"], "tables": ms["tables"], "read_trace": ms["read_trace"]}
             if ref["parsed"] != "tree":
                 obs["read_trace"] = mod_obs["read_trace"] = []
+            if hash_unknown:
+                obs["hash_i"] = mod_obs["hash_i"] = None
             lit_ok = True
             for name, val in ms["literal_touched"]:
                 # the in-place append is a quirk of the current code: a copy-on-read refactoring (list untouched)
@@ -346,6 +408,7 @@ def stream_sequences(ctx, drv, n_seq):
                                   "same_out": same_out, "literal_ok": lit_ok,
                                   "memo": [ms["memo_size"], memo_impl]})
                 break
+        leaked_globals(ctx, snap0, "sequence", [texts[i][:40] for i in seq])
         if si < 2:
             ctx.sample({"sequence": seq, "pseudo_hash.i after each call (impl=model)": [s["hash_i"] for s in m],
                         "max tables during a call": max((len(t) for s in m for t in s["read_trace"]), default=0)}, limit=2)
@@ -669,6 +732,13 @@ def stream_collection_sequences(ctx, n_random):
         ([{"a.py": "import b\n", "b.py": "import a\n"}, {"c.py": "import a\nimport b\n"}, {"a.py": "x = 1\n", "d.py": "import b\n"}],
          [(0, ""), (1, ""), (2, ""), (1, "")]),
     ]
+    scenarios += [
+        # process-global-state probes: the first program makes flatten_ast fail half-way, the second holds a decimal literal
+        # that only an untouched interpreter rejects; then each one alone (glob) in the same process
+        ([{"a_deep.py": TEXTS[P_DEEP], "b_dec.py": TEXTS[P_DEC], "c.py": "x = 1\n"}], [(0, ""), (0, "b*.py"), (0, "c*.py")]),
+        ([{"h.py": TEXTS[P_HEX], "k.py": TEXTS[P_BIN]}, {"d.py": TEXTS[P_DEC], "e.py": "import d\n"}], [(0, ""), (1, ""), (0, "")]),
+    ]
+    snap0 = snapshot_globals()
     for _ in range(n_random):
         mods = ctx.rng.sample(["helper", "utils", "core", "shapes", "vectors"], 3)
         da = {f"{m}.py": f"{m}_value = 1\n" for m in mods[:2]}
@@ -715,6 +785,7 @@ def stream_collection_sequences(ctx, n_random):
                                "how": "TagDatabase(dir, ignore_timestamps=True, glob_pattern=glob) for each step, in order, "
                                       "in ONE python process; compare get_json() of the differing step with a fresh process"}})
                 break
+        leaked_globals(ctx, snap0, "collections", [sorted(d_) for d_ in dirs])
 
 
 def slim(js):
@@ -741,7 +812,9 @@ def run(ctx):
     try:
         stream_sequences(ctx, drv, 14 if quick else 200)
         stream_cache_pressure(ctx, 1 if quick else 4)
+        snap_run = snapshot_globals()
         stream_collections(ctx, drv, 6 if quick else 80)
+        leaked_globals(ctx, snap_run, "sub-collections", "stream")
         stream_hashseeds(ctx, 3 if quick else 16, 3 if quick else 6)
         stream_collection_sequences(ctx, 2 if quick else 25)
     finally:
